@@ -91,7 +91,7 @@ theorem shiftLoop_mid (b : List Int) : ∀ (pre rest : Cells) (x : Int),
   | cons y b ih =>
     intro pre rest x
     have r1 : readCell (pre ++ some x :: (y :: b).map some ++ rest) (pre.length + 1) = some y := by
-      simp [readCell, List.getElem?_append_right]
+      simp [readCell]
     have r0 : readCell (pre ++ some x :: (y :: b).map some ++ rest) pre.length = some x := by
       simp [readCell]
     have hs : (pre ++ some x :: (y :: b).map some ++ rest).set pre.length (some y) =
@@ -323,7 +323,7 @@ theorem removeAt_rel (r : RArr) (a : AState) (h : Rel r a) (i : Nat) (hi : i < a
       simp [destroy]
     refine ⟨_, _, by simp only [removeAt, hn, hi, if_true, h2, hs, hd] <;> rfl,
       by simp only [AState.removeIt, AState.size, AState.elems, Option.getD_some, hi, if_true] <;> rfl, ?_⟩
-    refine ⟨h1, ?_, by simp [hn]; omega, by simp; omega⟩
+    refine ⟨h1, ?_, by simp; omega, by simp; omega⟩
     simp only [img]
     have : cap - (es.take i ++ es.drop (i + 1)).length = (cap - es.length) + 1 := by simp; omega
     rw [this, List.replicate_succ]; simp
